@@ -695,7 +695,25 @@ func (p *C09) genNonsense(r *model.Rand) (*nonsense, []string) {
 		b.StdinFrom = &zero
 		return a, b
 	}
-	switch r.Intn(25) {
+	switch r.Intn(26) {
+	case 25:
+		// a user attribute that has a name and no usable degree: every command
+		// that has to compute with it refuses (listing it is not computing)
+		attr := model.Pick(r, []string{"- name: NoDeg\n", "- name: NoDeg\n  degree: ~\n", "- name: NoDeg\n  degre: \"3\"\n", "- name: NoDeg\n  degree: \"\"\n",
+			"- name: NoDeg\n  meta:\n    display: nd\n  attributes:\n    - Perfect1\n", "- name: NoDeg\n  degree: []\n"})
+		chordY := "- name: UsesIt\n  meta:\n    display: usesit\n  attributes:\n    - Perfect1\n    - NoDeg\n"
+		files := map[string]*simrt.FileSpec{"/sim/nodeg-attr.yml": {Data: []byte(attr)}, "/sim/nodeg-chord.yml": {Data: []byte(chordY)}}
+		var st Step
+		switch r.Intn(3) {
+		case 0:
+			st = Step{Step: simrt.Step{Argv: []string{"info", "attr", "describe", "-t", "NoDeg", "-r", model.Pick(r, roots), "--attr", "/sim/nodeg-attr.yml"}, Seed: seed, Files: files}}
+		case 1:
+			st = Step{Step: simrt.Step{Argv: []string{"info", "chord", "describe", "-t", "Cusesit", "--attr", "/sim/nodeg-attr.yml", "--chord", "/sim/nodeg-chord.yml"}, Seed: seed, Files: files}}
+		default:
+			st = writeStep(append(wcmd, "--attr", "/sim/nodeg-attr.yml", "--chord", "/sim/nodeg-chord.yml"), yamlPre+"- chord:\n    degree: \"1\"\n    name: \"usesit\"\n  values:\n    - \"1\"\n"+yamlPost, seed)
+			st.Files = files
+		}
+		return mk("attribute-without-degree", "dictionary", 0, st)
 	case 24:
 		// an unknown command letter among the conversions of `info key conv -c`
 		// (the flag is --command there, too): it must not be skipped
@@ -870,7 +888,20 @@ func (p *C09) Generate(seed uint64, run int) *Case {
 		return c
 	}
 	var b Base
-	switch r.Intn(22) {
+	switch r.Intn(23) {
+	case 22:
+		// long rests that carry metadata, then a chord, on several tracks: each
+		// delta is legal on the conductor track, their sum is not on a note track
+		v := model.Pick(r, []string{"200000", "150000", "279620", "100000"})
+		n := 2 + r.Intn(3)
+		var doc strings.Builder
+		for i := 0; i < n; i++ {
+			fmt.Fprintf(&doc, "- values:\n    - \"%s\"\n  meta:\n    txt: part %d\n", v, i)
+		}
+		doc.WriteString(goodInst)
+		cmd := model.Pick(r, [][]string{{"write"}, {"write", "event"}})
+		b = Base{Argv: append(append([]string{}, cmd...), "--track", model.Pick(r, []string{"2", "3", "4", "17"})), Input: []byte(doc.String()), InputArg: true, Class: "doc"}
+		c.Labels = append(c.Labels, "fault:F8:overlong", "delta-edge")
 	case 0, 1, 2, 3, 4, 5, 6:
 		b = p.w.GenText(r, r.Chance(1, 50))
 	case 7, 8, 9, 10, 11, 12, 13:
